@@ -139,3 +139,46 @@ func max(a, b int) int {
 	}
 	return b
 }
+
+// Ladder returns an unsatisfiable formula made of wide, nested clauses over 2m+1 variables: its natural
+// refutation learns clauses of up to m literals, each needed to derive the next one. Variables are renamed
+// and polarities flipped at random, and the clause order is shuffled.
+func Ladder(r *Rng, m int) (cnf [][]int, n int) {
+	n = 2*m + 1
+	prefix := func(j int) []int {
+		cl := make([]int, j)
+		for i := range cl {
+			cl[i] = i + 1
+		}
+		return cl
+	}
+	cnf = append(cnf, append(prefix(m), 2*m), append(prefix(m), -2*m))
+	for j := m - 1; j >= 1; j-- {
+		cnf = append(cnf, append(prefix(j), -(j + 1), m+j), append(prefix(j), -(j + 1), -(m + j)))
+	}
+	cnf = append(cnf, []int{-1, n}, []int{-1, -n})
+	ren := r.Perm(n)
+	flip := make([]bool, n)
+	for i := range flip {
+		flip[i] = r.Chance(1, 3)
+	}
+	for _, cl := range cnf {
+		for i, l := range cl {
+			v := l
+			if v < 0 {
+				v = -v
+			}
+			nv := ren[v-1] + 1
+			if (l < 0) != flip[v-1] {
+				nv = -nv
+			}
+			cl[i] = nv
+		}
+	}
+	p := r.Perm(len(cnf))
+	c2 := make([][]int, len(cnf))
+	for i, j := range p {
+		c2[i] = cnf[j]
+	}
+	return c2, n
+}
